@@ -599,13 +599,14 @@ func msgOrder(f *ir.File) []string {
 // ---------------------------------------------------------------- C18
 
 type c18Case struct {
-	Target           string `json:"target"`   // selected type below which the bad field is injected
-	Host             string `json:"host"`     // message that receives the bad field
-	Kind             string `json:"kind"`     // no_time_type | no_duration_type | map_key | group
-	MapKey           string `json:"map_key"`  // for map_key
-	Card             string `json:"card"`     // cardinality of the bad field (time/duration)
-	Oneof            string `json:"oneof"`    // put the bad field into this oneof of the host ("" = none)
-	KeyForm          string `json:"key_form"` // full | type : form of the exclude_fields entry
+	Target           string `json:"target"`         // selected type below which the bad field is injected
+	Host             string `json:"host"`           // message that receives the bad field
+	Kind             string `json:"kind"`           // no_time_type | no_duration_type | no_duration_type_cast | map_key | group
+	Cast             string `json:"cast,omitempty"` // no_duration_type_cast: time.Duration or the configured duration_custom_type
+	MapKey           string `json:"map_key"`        // for map_key
+	Card             string `json:"card"`           // cardinality of the bad field (time/duration)
+	Oneof            string `json:"oneof"`          // put the bad field into this oneof of the host ("" = none)
+	KeyForm          string `json:"key_form"`       // full | type : form of the exclude_fields entry
 	Depth            int    `json:"depth"`
 	BehindCollection bool   `json:"behind_collection"`
 }
@@ -640,10 +641,10 @@ func hostsBelow(f *ir.File, root string) map[string][2]int {
 func init() {
 	Defs["C18"] = &Def{
 		Draw: func(t *rapid.T, r *Recorder) *Replay {
-			kind := rapid.SampledFrom([]string{"no_time_type", "no_duration_type", "map_key", "group"}).Draw(t, "badkind")
+			kind := rapid.SampledFrom([]string{"no_time_type", "no_duration_type", "no_duration_type_cast", "map_key", "group"}).Draw(t, "badkind")
 			v := genLevelVariant(t, r, func(o *gen.Opts, k *gen.KOpts) {
 				k.NoCustom = true
-				if kind == "no_time_type" || kind == "no_duration_type" {
+				if kind == "no_time_type" || kind == "no_duration_type" || kind == "no_duration_type_cast" {
 					o.NoTemporal = true
 					k.NoTimeType = true
 				}
@@ -687,9 +688,20 @@ func init() {
 			c.Depth, c.BehindCollection = hosts[c.Host][0], hosts[c.Host][1] == 1
 			c.MapKey = rapid.SampledFrom([]string{"int32", "int64", "uint32", "uint64", "sint32", "fixed64", "bool"}).Draw(t, "mapkey")
 			c.Card = rapid.SampledFrom([]string{ir.Single, ir.Repeated, ir.Map}).Draw(t, "badcard")
-			if on := v.File.Msg(c.Host).OneofNames(); len(on) > 0 && rapid.Bool().Draw(t, "inoneof") && (kind == "no_time_type" || kind == "no_duration_type" || kind == "group") {
+			if on := v.File.Msg(c.Host).OneofNames(); len(on) > 0 && rapid.Bool().Draw(t, "inoneof") && (kind == "no_time_type" || kind == "no_duration_type" || kind == "no_duration_type_cast" || kind == "group") {
 				c.Oneof = on[0]
 				c.Card = ir.Single
+			}
+			if kind == "no_duration_type_cast" {
+				// a duration that is only known through its cast type: an int64 cast to time.Duration or to the
+				// configured duration_custom_type, while no duration_type is configured
+				c.Cast = rapid.SampledFrom([]string{"time.Duration", "Duration"}).Draw(t, "badcast")
+				if c.Cast == "Duration" {
+					v.Cfg.DurationCustomType = "Duration"
+				}
+				if c.Card == ir.Map {
+					c.Card = ir.Repeated // casttype on map values is outside D
+				}
 			}
 			c.KeyForm = rapid.SampledFrom([]string{"type", "full"}).Draw(t, "keyform")
 			setExtra(rp, "c18", c)
@@ -715,6 +727,8 @@ func init() {
 				fl.Kind, fl.Card = ir.KTimestamp, c.Card
 			case "no_duration_type":
 				fl.Kind, fl.Card = ir.KDuration, c.Card
+			case "no_duration_type_cast":
+				fl.Kind, fl.Card, fl.CastType = "int64", c.Card, c.Cast
 			case "map_key":
 				fl.Kind, fl.Card, fl.MapKey = "string", ir.Map, c.MapKey
 			case "group":
